@@ -46,6 +46,7 @@ static const uint16_t kSeed16[3] = {0xFFFF, 0x0000, 0x1D0F};
 static const uint32_t kSeed32[3] = {0xFFFFFFFFu, 0x00000000u, 0x12345678u};
 static void crc_one(const std::string &key, const uint8_t *x, size_t n) {
   if (out_of_time()) return;
+  align_case_begin();
   C.states++; Ex in(x, n); char got[160]; unsigned v[8]; int k = 0;
   for (int s = 0; s < 3; s++) { C.transitions++; Guard g("CalcCrc16", x, n); uint16_t r = s == 0 ? tbox::util::CalcCrc16(in.p, n) : tbox::util::CalcCrc16(in.p, n, kSeed16[s]);
     if (g.hit()) viol(generic_san_sig("crc16"), show_in(x, n) + " " + Guard::desc());
@@ -59,6 +60,14 @@ static void crc_one(const std::string &key, const uint8_t *x, size_t n) {
     v[k++] = r; if (r != ref_cs8(x, n)) viol("checksum8-differs-from-ones-complement-reference", show_in(x, n) + " got=" + std::to_string(r) + " want=" + std::to_string(ref_cs8(x, n))); }
   { C.transitions++; Guard g("CalcCheckSum16", x, n); uint16_t r = tbox::util::CalcCheckSum16(in.p, n); if (g.hit()) viol(generic_san_sig("checksum16"), show_in(x, n) + " " + Guard::desc());
     v[k++] = r; if (r != ref_cs16(x, n)) viol("checksum16-differs-from-rfc1071-reference", show_in(x, n) + " got=" + std::to_string(r) + " want=" + std::to_string(ref_cs16(x, n))); }
+  // chained computation over every 2-way split (each part in its own exact block): the second call is seeded with the register the
+  // REFERENCE leaves after the first part (CRC-16: the result; CRC-32: its complement) and must give the reference CRC of the whole
+  if (n <= 48) for (size_t a = 0; a <= n; a++) { C.transitions++; C.executions += 4; Ex p1(x, a), p2(x + a, n - a); Guard g("CalcCrc(chained)", x, n);
+    const uint16_t r16a = tbox::util::CalcCrc16(p1.p, a, kSeed16[2]), r16 = tbox::util::CalcCrc16(p2.p, n - a, ref_crc16(x, a, kSeed16[2]));
+    const uint32_t r32a = tbox::util::CalcCrc32(p1.p, a, kSeed32[2]), r32 = tbox::util::CalcCrc32(p2.p, n - a, ~ref_crc32(x, a, kSeed32[2]));
+    if (g.hit()) viol(generic_san_sig("crc-chained"), show_in(x, n) + " split=" + std::to_string(a) + " " + Guard::desc());
+    if (r16a != ref_crc16(x, a, kSeed16[2]) || r16 != ref_crc16(x, n, kSeed16[2])) viol("crc16-differs-from-bitwise-poly-0x1021-reference", show_in(x, n) + " chained, split=" + std::to_string(a));
+    if (r32a != ref_crc32(x, a, kSeed32[2]) || r32 != ref_crc32(x, n, kSeed32[2])) viol("crc32-differs-from-bitwise-poly-0x04C11DB7-reference", show_in(x, n) + " chained, split=" + std::to_string(a)); }
   // self-verification laws: appending the big-endian checksum makes the total sum to zero (even-length message)
   if (n % 2 == 0 && n < 400) { std::vector<uint8_t> m(x, x + n); m.push_back((uint8_t)(v[7] >> 8)); m.push_back((uint8_t)v[7]); Ex e(m.data(), m.size()); C.executions++;
     if (tbox::util::CalcCheckSum16(e.p, m.size()) != 0) viol("checksum16-appended-checksum-does-not-verify", show_in(x, n)); }
@@ -98,6 +107,7 @@ static std::string md5_run(const uint8_t *m, size_t L, const std::vector<size_t>
   Ex d(16); { Guard g("MD5.finish", m, L, 16); md5.finish(d.p); if (g.hit()) viol(generic_san_sig("md5-finish"), "L=" + std::to_string(L) + " " + Guard::desc()); }
   return hexs(d.p, 16);
 }
+static void md5_len(size_t L, size_t all3);
 static std::string cuts_str(const std::vector<size_t> &c) { std::string s; for (size_t v : c) s += (s.empty() ? "" : ",") + std::to_string(v); return s.empty() ? "none" : s; }
 void sweep_md5(const char *expect) {
   if (!load_expect(expect)) return;
@@ -106,14 +116,18 @@ void sweep_md5(const char *expect) {
     {"ABCDEFGHIJKLMNOPQRSTUVWXYZabcdefghijklmnopqrstuvwxyz0123456789", "d174ab98d277d9f5a5611c2c9f419d9f"},
     {"12345678901234567890123456789012345678901234567890123456789012345678901234567890", "57edf4a22be3c955ac49da2e2107b67a"} };
   for (auto &t : suite) { C.states++; C.transitions++; std::string d = md5_run((const uint8_t *)t.m, strlen(t.m), {}); if (d != t.d) viol("md5-rfc1321-test-suite-vector-wrong", std::string("msg=\"") + t.m + "\" got=" + d); }
-  size_t maxL = thorough() ? 300 : 130, all3 = thorough() ? 130 : 0; static const int pats[2] = {2, 5};
+  size_t maxL = thorough() ? 300 : 130, all3 = thorough() ? 130 : 0;
+  for (size_t L = 0; L <= maxL && !g_capped; L++) { if ((int)(L % (size_t)g_nparts) != g_part) continue; md5_len(L, all3); }
+}
+static void md5_len(size_t L, size_t all3) {
+  static const int pats[2] = {2, 5};
   static const size_t grid[] = {0, 1, 2, 3, 31, 32, 33, 55, 56, 57, 63, 64, 65, 66, 119, 120, 121, 127, 128, 129};
-  for (size_t L = 0; L <= maxL && !g_capped; L++) { if ((int)(L % (size_t)g_nparts) != g_part) continue;
+  {
     for (int pi = 0; pi < 2; pi++) { int p = pats[pi];
     std::vector<uint8_t> m = pattern(p, L); C.states++;
     auto it = g_expect.find("M:" + std::to_string(p) + ":" + std::to_string(L)); if (it == g_expect.end()) { viol("harness-expect-entry-missing", "M:" + std::to_string(p) + ":" + std::to_string(L)); continue; }
     const std::string want = it->second;
-    auto check = [&](const std::vector<size_t> &cuts, const char *kind) { C.transitions++; std::string d = md5_run(m.data(), L, cuts);
+    auto check = [&](const std::vector<size_t> &cuts, const char *kind) { C.transitions++; align_case_begin(); std::string d = md5_run(m.data(), L, cuts);
       if (d != want) viol(std::string("md5-digest-differs-from-hashlib-") + kind, "pattern=" + std::to_string(p) + " L=" + std::to_string(L) + " cuts=" + cuts_str(cuts) + " got=" + d + " want=" + want); };
     check({}, "single-update");
     for (size_t a = 0; a <= L; a++) check({a}, "2-way-split");
@@ -189,7 +203,7 @@ static void aes_ref_cipher(const uint8_t rk[176], const uint8_t in[16], uint8_t 
 static void unhex16(const char *h, uint8_t o[16]) { for (int i = 0; i < 16; i++) o[i] = (uint8_t)(hexval((uint8_t)h[2 * i]) * 16 + hexval((uint8_t)h[2 * i + 1])); }
 static unsigned long long g_aes_pairs = 0;
 static void aes_one(const uint8_t key[16], const uint8_t pt[16], const char *kat_ct, const std::string *py_ct, const std::string &label) {
-  C.states++; g_aes_pairs++; uint8_t rk[176], want[16]; aes_ref_expand(key, rk); aes_ref_cipher(rk, pt, want);
+  align_case_begin(); C.states++; g_aes_pairs++; uint8_t rk[176], want[16]; aes_ref_expand(key, rk); aes_ref_cipher(rk, pt, want);
   const std::string id = label + " key=" + hexs(key, 16) + " block=" + hexs(pt, 16);
   if (kat_ct) { uint8_t k[16]; unhex16(kat_ct, k); if (memcmp(k, want, 16) != 0) { viol("harness-aes-reference-disagrees-with-published-vector", id); return; } }
   if (py_ct && *py_ct != hexs(want, 16)) { viol("harness-aes-cpp-reference-disagrees-with-python-reference", id + " cpp=" + hexs(want, 16) + " py=" + *py_ct); return; }
@@ -261,4 +275,22 @@ void sweep_aes(const char *expect) {
     for (int a = 0; a < 64 && !out_of_time(); a++) if (a % g_nparts == g_part) for (int b = 0; b < 64; b++) { std::vector<uint8_t> k = pattern(5, 16 + (size_t)a), p = pattern(2, 16 + (size_t)b); aes_one(k.data(), p.data(), nullptr, nullptr, "patterned"); }
   }
   printf("@INFO aes key/block pairs evaluated: %llu\n", g_aes_pairs);
+}
+
+// alignment sweep: message / key / block / digest buffers at the active start offsets.  Expect files: crc, md5, aes (comma separated).
+void align_digest(const char *expect) {
+  std::string list = expect; size_t st = 0; while (st <= list.size()) { size_t cm = list.find(',', st); if (cm == std::string::npos) cm = list.size(); if (cm > st && !load_expect(list.substr(st, cm - st).c_str())) return; st = cm + 1; }
+  // CRC-16/32 (3 seeds + every chained 2-way split), checksum-8/16: all strings of length 0..1, length 2 over A20, lengths 3..48 x 6 patterns
+  std::vector<uint8_t> full = alphabet("FULL");
+  for (size_t len = 0; len <= 1; len++) for_all_strings(full, len, 0, 1, [](const uint8_t *p, size_t n) { crc_one("S:" + (n ? hexs(p, n) : std::string("-")), p, n); });
+  for_all_strings(alphabet("A20"), 2, 0, 1, [](const uint8_t *p, size_t n) { crc_one("S:" + hexs(p, n), p, n); });
+  for (size_t L = 3; L <= 48 && !g_capped; L++) for (int p = 0; p < kPatterns; p++) { std::vector<uint8_t> v = pattern(p, L); crc_one("P:" + std::to_string(p) + ":" + std::to_string(L), v.data(), L); }
+  // MD5: lengths 0..70 (130 thorough) x 2 patterns x {single, every 2-way split, 3-way grid, byte-at-a-time, two instances}: every part and the digest at the offsets
+  for (size_t L = 0; L <= (thorough() ? 130u : 70u) && !out_of_time(); L++) md5_len(L, 0);
+  // AES: the published known answers and the 128 diagonal single-bit key/block pairs: key, input, output (and the in-place buffer) at the offsets
+  aes_ref_init();
+  static const char *kat[][3] = { {"2b7e151628aed2a6abf7158809cf4f3c", "3243f6a8885a308d313198a2e0370734", "3925841d02dc09fbdc118597196a0b32"}, {"000102030405060708090a0b0c0d0e0f", "00112233445566778899aabbccddeeff", "69c4e0d86a7b0430d8cdb78070b4c55a"} };
+  for (auto &t : kat) { uint8_t k[16], p[16]; unhex16(t[0], k); unhex16(t[1], p); aes_one(k, p, t[2], nullptr, "KAT"); }
+  for (int b = 0; b < 128 && !out_of_time(); b++) { uint8_t k[16] = {0}, p[16] = {0}; k[b / 8] = (uint8_t)(0x80 >> (b % 8)); p[(127 - b) / 8] = (uint8_t)(0x80 >> ((127 - b) % 8));
+    auto it = g_expect.find("B:" + std::to_string(b) + ":" + std::to_string(127 - b)); aes_one(k, p, nullptr, it == g_expect.end() ? nullptr : &it->second, "bit"); }
 }
